@@ -302,9 +302,8 @@ class FeArray(np.ndarray):
     @lru_cache(maxsize=16)
     def _dot_subscript(ndim1: int, ndim2: int) -> str:
         """Build and cache the einsum subscript for dot(ndim1, ndim2)."""
-        _idx = {0: "", 1: "i", 2: "ij", 4: "ijkl"}
-        idx1 = _idx[ndim1]
-        idx2 = "".join(chr(ord(v) + ndim1 - 1) for v in _idx[ndim2])
+        idx1 = "ijklmnop"[:ndim1]
+        idx2 = "".join(chr(ord(v) + ndim1 - 1) for v in "ijklmnop"[:ndim2])
         end = (idx1 + idx2).replace(idx1[-1], "")
         return f"...{idx1},...{idx2}->...{end}"
 
@@ -312,9 +311,8 @@ class FeArray(np.ndarray):
     @lru_cache(maxsize=16)
     def _ddot_subscript(ndim1: int, ndim2: int) -> str:
         """Build and cache the einsum subscript for ddot(ndim1, ndim2)."""
-        _idx = {0: "", 1: "i", 2: "ij", 4: "ijkl"}
-        idx1 = _idx[ndim1]
-        idx2 = "".join(chr(ord(v) + ndim1 - 2) for v in _idx[ndim2])
+        idx1 = "ijklmnop"[:ndim1]
+        idx2 = "".join(chr(ord(v) + ndim1 - 2) for v in "ijklmnop"[:ndim2])
         end = (idx1 + idx2).replace(idx1[-1], "").replace(idx1[-2], "")
         return f"...{idx1},...{idx2}->...{end}"
 
